@@ -3,6 +3,7 @@ import hashlib
 import json
 import os
 import shutil
+import signal
 import subprocess
 import sys
 import time
@@ -54,11 +55,23 @@ def write_if_changed(path, text):
 
 
 def run(cmd, cwd=None, timeout=None, env=None, input=None):
+    """run a command in its own process group; on timeout the whole group is killed (a looping
+    proc macro lives in a rustc grandchild that would otherwise survive cargo)"""
     e = dict(ENV)
     if env:
         e.update(env)
-    p = subprocess.run(cmd, cwd=cwd, timeout=timeout, env=e, input=input, capture_output=True, text=True)
-    return p.returncode, p.stdout, p.stderr
+    p = subprocess.Popen(cmd, cwd=cwd, env=e, stdin=subprocess.PIPE if input is not None else subprocess.DEVNULL,
+                         stdout=subprocess.PIPE, stderr=subprocess.PIPE, text=True, start_new_session=True)
+    try:
+        out, err = p.communicate(input=input, timeout=timeout)
+    except subprocess.TimeoutExpired:
+        try:
+            os.killpg(p.pid, signal.SIGKILL)
+        except OSError:
+            pass
+        p.wait()
+        raise
+    return p.returncode, out, err
 
 
 def repo_hash(subdirs=('crates',)):
